@@ -6,6 +6,7 @@ facts that hold on every path reaching it.  Facts are strings:
    NE:<path>     the iterator <path> was compared unequal to an end() iterator
    B:<path>      bounds facts are kept as tuples ('B', index path, op, container path / literal)
    NZ:<path>     the arithmetic value <path> is non-zero
+   ORD:<path>    <path> took part in an ordered comparison that held (so it is not a NaN)
 Paths are canonical access paths rooted at a declaration id ("#0x..:name.a.b"), with
 dereferences of optionals / smart pointers written as '!'.
 The code base has no goto; asserts are compiled out (NDEBUG) and establish nothing.
@@ -13,6 +14,8 @@ The code base has no goto; asserts are compiled out (NDEBUG) and establish nothi
 from .program import children, strip, walk, locstr, literal_value
 
 LEAVE = ('ReturnStmt', 'CXXThrowExpr', 'BreakStmt', 'ContinueStmt')
+# wrappers that convert a floating value to an integer (rule C15-U11 decides their body)
+CONVERTERS = ('saturating_cast',)
 
 
 def canon(n):
@@ -61,6 +64,10 @@ def canon(n):
             b = canon(children(callee)[0])
             return None if b is None else b + '.%s()' % nm.replace('c', '', 1) if nm.startswith('c') else b + '.%s()' % nm
         return None
+    if k == 'CallExpr' and len(children(n)) == 2 and \
+            (strip(children(n)[0]).get('referencedDecl') or {}).get('name') in CONVERTERS:
+        # the repository's range-safe floating -> integer conversion: names the converted operand
+        return canon(children(n)[1])
     if k == 'CallExpr' and len(children(n)) == 1:
         # std::numeric_limits<T>::max() / min() / lowest(): a constant of the result type
         ref = strip(children(n)[0]).get('referencedDecl') or {}
@@ -161,9 +168,13 @@ def float_to_int_cast(node):
     """The expression converts a floating value to an integer type (explicit or implicit)."""
     x = strip(node) if node.get('kind') == 'ParenExpr' else node
     while isinstance(x, dict) and x.get('kind') in ('CXXStaticCastExpr', 'CStyleCastExpr', 'CXXFunctionalCastExpr',
-                                                      'ImplicitCastExpr', 'ParenExpr'):
+                                                      'ImplicitCastExpr', 'ParenExpr', 'CallExpr'):
         c = children(x)
         if not c:
+            break
+        if x.get('kind') == 'CallExpr':
+            if len(c) == 2 and (strip(c[0]).get('referencedDecl') or {}).get('name') in CONVERTERS:
+                return True
             break
         inner_t = (strip(c[0]).get('type') or '')
         outer_t = (x.get('type') or '')
@@ -178,10 +189,17 @@ FLIP = {'<': '>', '>': '<', '<=': '>=', '>=': '<=', '==': '==', '!=': '!='}
 
 
 def _cmp_facts(op, a, b, truth):
+    ordered = (truth and op in ('<', '<=', '>', '>=', '==')) or (not truth and op == '!=')
     if not truth:
         op = NEG[op]
     out = set()
     pa, pb = canon(a), canon(b)
+    if ordered:
+        # a comparison that evaluated to true: neither operand is a NaN (facts obtained by negating a failed
+        # comparison do not say so)
+        for x in (pa, pb):
+            if x:
+                out.add('ORD:' + x)
     la, lb = literal_value(a), literal_value(b)
     sa_, sb_ = strip(a, explicit=True), strip(b, explicit=True)
     # optional vs nullopt
